@@ -43,6 +43,9 @@ type Case struct {
 	Insts []Inst  `json:"insts"`
 	SKeys []SKey  `json:"skeys"`
 	Sops  [][]any `json:"sops"`
+	// kind "conc" (conc.go): threads of ring operations on universe nodes, a schedule of thread ids
+	Threads [][][]any `json:"threads"`
+	Sched   []int     `json:"sched"`
 }
 
 type Out struct {
@@ -349,7 +352,9 @@ func main() {
 	defer w.Close()
 	initWheel()
 	for _, c := range cases {
-		if c.Kind == "script" {
+		if c.Kind == "conc" {
+			w.Put(runConc(c))
+		} else if c.Kind == "script" {
 			w.Put(runScript(c))
 		} else if c.Kind == "cache" || c.Kind == "kv" {
 			w.Put(runCluster(c))
